@@ -4,7 +4,42 @@ from .core import core_check
 from .. import assign_replay, partial_replay, seqedit_replay, tlc
 
 
+def _externals(chk):
+    """sessions over the external storage (histories of spec/ISExternal.tla): create / fix / trim of outsourced
+    values in every combination - the end of the session must not fail"""
+    from .. import external_replay as er, pool, session_driver
+    from ..checklib import MachineryError
+    session_driver.preload()
+    num, limit = (8, 120) if chk.quick else (60, 1500)
+    res = tlc.run_tlc("MC_External", "External_sim.cfg", workers=1, simulate="num=%d" % num, depth=7,
+                      seed=chk.seed + 18, timeout=1200, overrides={"Collide": False})
+    chk.add_tlc(res, "simulate External (num=%d) for the session-end clause" % num)
+    try:
+        hs = er.load_histories(res.out_dir, chk.seed, limit)
+    finally:
+        tlc.cleanup(res)
+    if not hs:
+        raise MachineryError("no histories produced")
+    by_id = {h["id"]: h for h in hs}
+    errors = 0
+    for out in pool.parallel_map(er._worker, [(c, chk.seed, False) for c in pool.chunks(hs, 3)]):
+        for r in out:
+            if "error" in r:
+                errors += 1
+                print("driver error:", r["error"])
+                continue
+            chk.count(1, "ext|%s" % r["id"])
+            chk.validated(1)
+            for m in r["mism"]:
+                chk.mismatch(m["clause"], {"clause": m["clause"], "model": "external"},
+                             {"kind": "external-history", "history": by_id[r["id"]], "collide": False, "seed": chk.seed, "mismatch": m,
+                              "concretisation": r["info"]}, props=m["props"])
+    if errors:
+        raise MachineryError("%d history jobs crashed" % errors)
+
+
 def _structural(chk):
+    _externals(chk)
     # comparisons that raise half way through the structural assignment (spec/ISPartial.tla)
     if chk.quick:
         partial_replay.run(chk, k=2, max_cmp=3)
